@@ -244,6 +244,86 @@ func runC10(r *Run) {
 	// ---------- R4 ----------
 	nilWrapRule(r, "R4")
 
+	// ---------- R7 ----------
+	r.Rule("R7", "ERR.conversion-errors-propagate: a conversion escrows/burns first and checks its post-condition last, relying on the caller to fail the transaction; so at every consensus-scope call site of a function from which one of the four convert* functions is reachable (within x/erc20 and its IBC middleware), a non-nil error result cannot lead to a success exit: the error is returned, or the non-nil edge reaches only failure exits (tabled exception: the IBC receive path turns the error into an error acknowledgement, decided by R5)")
+	{
+		convs := map[*ssa.Function]bool{}
+		for _, n := range []string{"convertCoinNativeCoin", "convertCoinNativeERC20", "convertERC20NativeCoin", "convertERC20NativeToken"} {
+			if f, ok := P.FnOK("(" + erc20K + ".Keeper)." + n); ok {
+				convs[f] = true
+			}
+		}
+		reach := map[*ssa.Function]bool{}
+		for f := range convs {
+			reach[f] = true
+		}
+		for changed := true; changed; {
+			changed = false
+			for _, fn := range P.Funcs {
+				if reach[fn] || isTestSupport(P, fn) || !strings.HasPrefix(fnPkgPath(fn), haqqMod+"/x/erc20") {
+					continue
+				}
+				eachCall(fn, func(ci CallInfo) {
+					if ci.Static != nil && reach[ci.Static] && !reach[fn] {
+						reach[fn] = true
+						changed = true
+					}
+				})
+			}
+		}
+		ackException := map[string]string{
+			"(x/erc20/keeper.Keeper).OnRecvPacket": "a failed conversion becomes an error acknowledgement (R5), which makes the transfer module revert the receive",
+			"app/upgrades/v1.7.6.TurnOnDAO$1":      "one-off upgrade migration (already executed) that by design logs and skips per-account failures inside an account iterator; it converts module-deployed liquid-token contracts only; not a message path",
+		}
+		nSites := 0
+		for _, fn := range scopesOf(r).S.HaqqFuncs() {
+			if isTestSupport(P, fn) || isGeneratedFile(P.FileOf(fnPos(fn))) {
+				continue
+			}
+			idx := 0
+			eachCall(fn, func(ci CallInfo) {
+				if ci.Static == nil || !reach[ci.Static] || errResultOf(ci.Instr) == nil {
+					return
+				}
+				nSites++
+				idx++
+				inst := fmt.Sprintf("%s#err-of-%s-%d", fnID(fn), ci.Static.Name(), idx)
+				where := P.Pos(instrPos(ci.Instr))
+				if why, ok := ackException[fnID(fn)]; ok {
+					r.OK("R7", inst, where, "tabled: "+why)
+					return
+				}
+				// returned as is?
+				e := errResultOf(ci.Instr)
+				direct := false
+				eachInstr(fn, func(in ssa.Instruction) {
+					if ret, ok := in.(*ssa.Return); ok {
+						for _, op := range retOperands(ret) {
+							if op == e {
+								direct = true
+							}
+						}
+					}
+				})
+				edges := errEdges(ci.Instr)
+				if len(edges) == 0 {
+					r.Check(direct, "R7", inst, where, "error returned unchanged", "the error of a conversion call is neither returned nor tested: a half-done conversion (coins escrowed, tokens released) would be committed")
+					return
+				}
+				okP := true
+				var wit []string
+				for _, ed := range edges {
+					if w := (PathQuery{Fn: fn, StartBlock: ed.From.Succs[ed.Succ], Target: isSuccessExit}).Search(); w != nil {
+						okP = false
+						wit = P.witness(w)
+					}
+				}
+				r.Check(okP, "R7", inst, where, "a non-nil error reaches only failure exits", "after a failed conversion the caller can still return success (the error is only logged or ignored): the half-done conversion — coins escrowed but not burned, tokens already released — is committed and coin supply is no longer backed", wit...)
+			})
+		}
+		r.Floor("R7", "call sites of conversion-reaching functions in consensus scope", nSites, 8)
+	}
+
 	// ---------- R6 ----------
 	r.Rule("R6", "PATH+FLOW.hook-guards: in PostTxProcessing the payout (MintCoins / CallEVM burn / SendCoinsFromModuleToAccount) is reachable only over the passing edges of: hook enabled (EnableErc20, EnableEVMHook), event name == Transfer, positive amount, registered pair found, recipient topic == ModuleAddress, pair.Enabled; the coin amount derives from the event data, the denom from the pair, the payee from topic 1, the burned contract is the log's address")
 	if fn, ok := P.FnOK("(" + erc20K + ".Keeper).PostTxProcessing"); ok {
